@@ -14,7 +14,7 @@ LEVEL = "exploration"
 RULE = (
     "stream = [flag-free noise] + 1..8 well-formed frames (addresses 1..4 octets each, any control/format type/S bit, info 0..max "
     "with emphasis on 0,1,2 and the 2047-octet limit, flag/escape-dense or uniform payload, unique 6-octet id in the info field), "
-    "separated and terminated by 1..3 flags; 30% of the frames sit on boundary values (HCS/FCS 0000, FFFF, ending in 7D, containing 7E, running FCS register 0000 mid-frame, near-maximum flag/escape-dense); every 20th stream holds 60..200 frames; splittings include cuts near 2047/2048/8191/8192 multiples and right after every n-th flag; stuffed on the wire for stuffing readers; for non-stuffing readers frames are redrawn until "
+    "separated and terminated by 1..3 flags; 30% of the frames sit on boundary values (HCS/FCS 0000, FFFF, ending in 7D, containing 7E, running FCS register 0000 mid-frame, near-maximum flag/escape-dense); every 20th stream holds 60..700 frames (up to ~90 KB, also fed as one tiny call followed by one huge call); splittings include cuts near 2047/2048/8191/8192 multiples and right after every n-th flag; stuffed on the wire for stuffing readers; for non-stuffing readers frames are redrawn until "
     "they are inside the property's domain (no flag in header octets; with abort detection no 7D directly before a flag or the frame end). "
     "Each stream runs under several splittings. evaluations = executions; distinct non-trivial = distinct (configuration, stream) digests "
     "(every stream contains >= 1 frame); a small shard runs ALL 2^(L-1) splittings of short streams."
@@ -124,8 +124,10 @@ def run(shard: dict, ctx) -> None:
         return
     for i in range(shard["n"]):
         cfg = hdlc_gen.CONFIGS[rng.randrange(4)]
-        stream, sent = make_stream(rng, cfg, ctx, max_frames=8 if i % 20 != 19 else rng.randint(60, 200))
+        stream, sent = make_stream(rng, cfg, ctx, max_frames=8 if i % 20 != 19 else rng.choice((rng.randint(60, 200), rng.randint(400, 700))))
         specs = [("none",), splits.limit_spec(rng, len(stream)), splits.aligned_spec(stream, 0x7E, rng.choice((1, 2, 3)))]
+        if len(stream) > 8000:
+            specs.append(("single", rng.randint(1, 40)))  # a tiny first call, then everything else in one huge call
         if len(stream) < 6000:
             specs.append(("bytewise",))
         specs += [splits.random_spec(rng, len(stream), False) for _ in range(3)]
